@@ -628,8 +628,13 @@ class SlotNode(BaseNode):
         if registry_settings.context_behavior == ContextBehavior.DJANGO:
             return context
         elif registry_settings.context_behavior == ContextBehavior.ISOLATED:
+            # NOTE: All fills of one component share the same `outer_context` object, and a fill may be
+            # rendered while another fill of that component is still being rendered (e.g. `{{ default }}`
+            # inside a fill renders default content that contains another filled slot). Each fill is
+            # rendered with temporary layers on top of its context (slot data, captured loop variables),
+            # so every fill gets its own copy, otherwise these layers leak from one fill into the other.
             outer_context = component_ctx.outer_context
-            return outer_context if outer_context is not None else Context()
+            return snapshot_context(outer_context) if outer_context is not None else Context()
         else:
             raise ValueError(f"Unknown value for context_behavior: '{registry_settings.context_behavior}'")
 
